@@ -663,7 +663,9 @@ class SignedFunction(Function):
     if posonly_kws and not sig.kwargs_name:
       raise error_types.WrongKeywordArgs(sig, args, self.ctx, posonly_kws)
     callargs.update(positional)
-    callargs.update(kws)
+    # A keyword that merely shares its name with a positional-only parameter
+    # does not bind that parameter; it goes to **kwargs.
+    callargs.update({k: v for k, v in kws.items() if k not in posonly_names})
     for key, kwonly in itertools.chain(
         self.get_nondefault_params(), ((key, True) for key in sig.kwonly_params)
     ):
@@ -691,7 +693,11 @@ class SignedFunction(Function):
       if args.starstarargs:
         callargs[kwargs_name] = args.starstarargs.AssignToNewVariable(node)
       else:
-        omit = sig.param_names + sig.kwonly_params
+        omit = tuple(
+            name
+            for name in sig.param_names + sig.kwonly_params
+            if name not in posonly_names
+        )
         k = _instances.Dict(self.ctx)
         k.update(node, args.namedargs, omit=omit)
         callargs[kwargs_name] = k.to_variable(node)
